@@ -103,6 +103,9 @@ Section ACC.
   (* `(this_val != img_fill) && !(__isnan(this_val))` *)
   Definition classify (fill v : T) : option T := if eqb OP v fill || isnan OP v then None else Some v.
 
+  (* ewa.py:_mask_helper: the output cells that are masked again when masked arrays were given *)
+  Definition mask_helper (data fill : T) : bool := if isnan OP fill then isnan OP data else eqb OP data fill.
+
   Definition cstate := (T * T)%type.             (* (grid_weights[cell], grid_accums[cell]) *)
   Definition gridst := cell -> cstate.
   Definition zero_grid : gridst := fun _ => (zero, zero).
